@@ -155,6 +155,20 @@ class SymH:
     def lt(self, a, b, tol=None):
         return box(core.r_cmp("lt", raw(a), raw(b)))
 
+    def near(self, a, b):
+        """equal, or adjacent floats (one nextafter step apart) — the 'few ulp' slack of the properties.
+        Adjacent means: one of them is a term x on which the code/harness called nextafter and the other is
+        that step (also under negation, floats being symmetric)."""
+        a, b = raw(a), raw(b)
+        alts = [core.r_cmp("eq", a, b)]
+        memo = self.ex.memo
+        for k, t in list(memo.items()):
+            if k and k[0] == "nextafter":
+                x = memo[("nextafter_arg", k[2])]
+                for (u, v) in ((x, t), (t, x), (-x, -t), (-t, -x)):
+                    alts.append(core.r_and(core.r_cmp("eq", a, u), core.r_cmp("eq", b, v)))
+        return self.Or(alts)
+
     def sum(self, xs):
         acc = 0
         for x in xs:
@@ -195,6 +209,24 @@ class SymH:
 
     def shape(self, arr):
         return tuple(self.np.asarray(arr).shape)
+
+    def snapshot(self, arr):
+        """identity snapshot of an array's cells (for non-mutation obligations)."""
+        a = self.np.asarray(arr)
+        return (a.shape, list(a.data))
+
+    def unchanged(self, snap, arr):
+        a = self.np.asarray(arr)
+        shape, cells = snap
+        if a.shape != shape:
+            return False
+        for x, y in zip(cells, a.data):
+            if is_sym(x) or is_sym(y):
+                if not (is_sym(x) and is_sym(y) and x.eq(y)):
+                    return False
+            elif not (type(x) is type(y) and (x == y or (x != x and y != y))):
+                return False
+        return True
 
     def decide(self, cond):
         """fork the harness itself on a condition (oracle case split)."""
@@ -321,6 +353,12 @@ class ConcH:
     def lt(self, a, b, tol=None):
         return float(a) < float(b) + self._t(a, b, tol)
 
+    def near(self, a, b):
+        a, b = float(a), float(b)
+        if a == b:
+            return True
+        return abs(a - b) <= 4 * abs(math.nextafter(a, math.inf) - a) or self.eq(a, b)
+
     def sum(self, xs):
         return sum(xs)
 
@@ -356,6 +394,13 @@ class ConcH:
 
     def shape(self, arr):
         return tuple(self.np.asarray(arr).shape)
+
+    def snapshot(self, arr):
+        return self.np.array(arr, copy=True)
+
+    def unchanged(self, snap, arr):
+        a = self.np.asarray(arr)
+        return a.shape == snap.shape and bool(self.np.array_equal(a, snap, equal_nan=True))
 
     def decide(self, cond):
         return bool(cond)
